@@ -1020,6 +1020,18 @@ func TestVerifC06Pick(t *testing.T) {
 		if r.Bool() {
 			strategy = schedulingconfig.NUMALeastAllocated
 		}
+		// directed stream: many sockets, preferred FullPCPUs, odd request larger than what one socket offers
+		// (drives the whole-socket and core-by-core phases of takeCPUs)
+		if dims[0] >= 3 && cpc >= 2 && r.Chance(1, 3) {
+			bind = schedulingconfig.CPUBindPolicyFullPCPUs
+			if len(avail) >= 5 {
+				need = r.Range(len(avail)/3, len(avail)-1) | 1
+			}
+			if r.Bool() {
+				preferred = nil
+			}
+			h.Tag("pick:directed-multisocket-odd")
+		}
 		h.Tag(fmt.Sprintf("topo:%dx%dx%dx%d", dims[0], dims[1], dims[2], dims[3]))
 		var got cpuset.CPUSet
 		var err error
